@@ -262,7 +262,7 @@ class Shrinker:
         if self.best["world"].get("git"):
             self._try(lambda c: c["world"].__setitem__("git", None))
         # 6. file contents: drop lines
-        for fi in range(len(self.best["world"].get("files", []))):
+        for fi in range(len(self.best["world"].get("files", [])) if getattr(self.mod, "SHRINK_CONTENT", True) else 0):
             content = self.best["world"]["files"][fi].get("content", "")
             if not isinstance(content, str) or content.count("\n") > 60:
                 continue
@@ -302,6 +302,7 @@ class Coverage:
                     continue
                 self.commands += 1
                 for k in rec.get("fired", []):
+                    k = k.split("|", 1)[0]
                     self.fault_kinds[k] = self.fault_kinds.get(k, 0) + 1
                 for p in rec.get("probes", []):
                     self.probes[p] = self.probes.get(p, 0) + 1
